@@ -24,11 +24,59 @@ def correspond(ctx):
     stats, tags, judged, lines = certlib.cone_runs(ctx, cvxopt, ['pinf', 'dinf', 'pinf', 'dinf', 'optimal'], n, 4 if ctx.quick() else 6, 'c02')
     ev = stats['solves']
     ev += opsolve_runs(ctx, cvxopt)
+    ev += precision_runs(ctx, cvxopt)
     ctx.cov.update({'evaluations': ev, 'distinct_nontrivial': judged,
                     'rule': 'planted cone LPs: 40% strict Farkas certificates (dual feasible), 40% strictly improving rays (primal feasible), 20% '
                             'solvable; presentations as in C01; every infeasibility status judged by pinfOk/dinfOk of the Lean checker; '
                             'op.solve status propagation on infeasible/unbounded LPs', 'statuses': stats, 'presentations': tags})
     ctx.samples += lines[:2]
+
+def precision_runs(ctx, cvxopt):
+    """strictly feasible planted cone LPs solved with tolerances near and below what double precision delivers (1e-11 .. 1e-13): the iteration
+    may break down, but an infeasibility status still has to come with a certificate (finite vectors, c'x = -1 resp. h'z + b'y = -1, cone
+    membership, residual at most feastol).  The corpus instance (tools/corr/c02_corpus.json) runs first."""
+    import json, math
+    from corr import problems as PR
+    from cvxopt import solvers, matrix, blas, misc
+    rng = random.Random(ctx.seed * 4177 + 2)
+    insts = []
+    for d in json.load(open(os.path.join(vlib.VERIF, 'tools', 'corr', 'c02_corpus.json')))['instances']:
+        n, N, p = d['n'], d['N'], d['p']
+        insts.append((d['dims'], matrix(d['c']), matrix([a for col in d['G'] for a in col], (N, n)), matrix(d['h']),
+                      matrix([a for col in d['A'] for a in col], (p, n)) if p else matrix(0.0, (0, n)), matrix(d['b']) if p else matrix(0.0, (0, 1)), 'corpus'))
+    for i in range(20 if ctx.quick() else 400):
+        pr = PR.planted_conelp(rng, 'optimal')
+        c, G, h, A, b, _ = PR.to_cvx(cvxopt, pr)
+        insts.append((pr.dims, c, G, h, A, b, 'planted'))
+    runs = 0; stat = {}
+    for dims, c, G, h, A, b, src in insts:
+        for tol in ((1e-11, 1e-12, 1e-13) if src == 'corpus' else (rng.choice([1e-11, 1e-12, 1e-13]),)):
+            o = {'show_progress': False, 'feastol': tol, 'abstol': tol, 'reltol': tol}
+            runs += 1
+            try:
+                with contextlib.redirect_stdout(io.StringIO()): r = solvers.conelp(c, G, h, dims, A, b, options=o)
+            except Exception as e:
+                stat['exception'] = stat.get('exception', 0) + 1; continue          # escaping breakdowns are C10's listed finding
+            st = r['status']; stat[st] = stat.get(st, 0) + 1
+            if st not in ('primal infeasible', 'dual infeasible'): continue
+            vecs = [r['x'], r['s']] if st == 'dual infeasible' else [r['y'], r['z']]
+            finite = all(v is not None and all(math.isfinite(t) for t in v) for v in vecs)
+            what = None
+            if not finite: what = 'the certificate contains NaN / infinite entries'
+            else:
+                if st == 'dual infeasible':
+                    res = max(blas.nrm2(A * r['x']) / max(1.0, blas.nrm2(b)) if A.size[0] else 0.0, math.sqrt(abs(misc.snrm2(G * r['x'] + r['s'], dims)) ** 2) / max(1.0, misc.snrm2(h, dims)))
+                    if abs(blas.dot(c, r['x']) + 1.0) > 1e-9 or res > tol * (1 + 1e-6) + 1e-13: what = "c'x = %r, residual %r > feastol" % (blas.dot(c, r['x']), res)
+                else:
+                    gz = G.T * r['z'] + (A.T * r['y'] if A.size[0] else 0 * c)
+                    res = blas.nrm2(gz) / max(1.0, blas.nrm2(c))
+                    val = blas.dot(h, r['z']) + (blas.dot(b, r['y']) if A.size[0] else 0.0)
+                    if abs(val + 1.0) > 1e-9 or res > tol * (1 + 1e-6) + 1e-13: what = "h'z + b'y = %r, residual %r > feastol" % (val, res)
+            if what:
+                ctx.violation('c02:certificate-invalid:conelp:precision-limit', "conelp with tolerances %g on a strictly feasible cone LP returned %r but %s" % (tol, st, what),
+                              {'dims': dims, 'c': list(c), 'G': list(G), 'h': list(h), 'A': list(A), 'b': list(b), 'tolerance': tol, 'source': src})
+    ctx.cov['precision_runs'] = dict(stat, runs=runs)
+    return runs
 
 def opsolve_runs(ctx, cvxopt):
     """status propagation into modeling.op.solve: values / multipliers are None for infeasible and unbounded problems"""
